@@ -177,37 +177,34 @@ Drop(s, p)      == Seg(s, 1, p - 1) \o Seg(s, p + 1, Len(s))
 Dup(s, p)       == Seg(s, 1, p) \o Seg(s, p, Len(s))
 Put(s, p, x)    == [s EXCEPT ![p] = x]
 
-Dmg(name, Cond(_), Res(_)) ==
-  /\ phase = "edited"
-  /\ \E p \in DOMAIN post : Cond(p) /\ post' = Res(p)
-  /\ dmg' = name /\ phase' = "damaged" /\ UNCHANGED <<lay, req>>
+Step(name, res) == phase = "edited" /\ post' = res /\ dmg' = name /\ phase' = "damaged" /\ UNCHANGED <<lay, req>>
 
-DropFarComment  == Dmg("drop-far-comment",  LAMBDA p : FarCmt(post[p]),  LAMBDA p : Drop(post, p))
-DropNearComment == Dmg("drop-near-comment", LAMBDA p : NearCmt(post[p]), LAMBDA p : Drop(post, p))
-DupComment      == Dmg("dup-comment",       LAMBDA p : post[p].k = "cmt", LAMBDA p : Dup(post, p))
-DropLineComment == Dmg("drop-line-comment", LAMBDA p : FarStmt(post[p]) /\ post[p].tr # 0,
-                       LAMBDA p : Put(post, p, StmtLine(post[p].id, 0, 0)))
-ReindentFarLine == Dmg("reindent-far-line", LAMBDA p : FarStmt(post[p]),
-                       LAMBDA p : Put(post, p, StmtLine(post[p].id, post[p].tr, 1)))
-SwapFarStatements == Dmg("swap-far-statements", LAMBDA p : FarStmt(post[p]) /\ p < Len(post) /\ FarStmt(post[p + 1]),
-                         LAMBDA p : Put(Put(post, p, post[p + 1]), p + 1, post[p]))
-DropFarBlank    == Dmg("drop-far-blank",
-                       LAMBDA p : post[p].k = "blank" /\ p > 1 /\ FarCmt(post[p - 1]) /\ p < Len(post) /\ FarCmt(post[p + 1]),
-                       LAMBDA p : Drop(post, p))
-DropNearBlank   == Dmg("drop-near-blank",
-                       LAMBDA p : /\ post[p].k = "blank" /\ p > 1 /\ p < Len(post) /\ req.op # "insert"
-                                  /\ NearCmt(post[p - 1]) /\ NearCmt(post[p + 1])
-                                  /\ post[p - 1].id < 100 /\ post[p + 1].id < 100
-                                  /\ post[p - 1].id \div 10 = post[p + 1].id \div 10,
-                       LAMBDA p : Drop(post, p))
-GlueComment     == Dmg("glue-comment",
-                       LAMBDA p : post[p].k = "cmt" /\ p > 1 /\ FarStmt(post[p - 1]) /\ post[p - 1].tr = 0,
-                       LAMBDA p : Drop(Put(post, p - 1, StmtLine(post[p - 1].id, post[p].id, 0)), p))
+DropFarComment  == \E p \in DOMAIN post : FarCmt(post[p])  /\ Step("drop-far-comment", Drop(post, p))
+DropNearComment == \E p \in DOMAIN post : NearCmt(post[p]) /\ Step("drop-near-comment", Drop(post, p))
+DupComment      == \E p \in DOMAIN post : post[p].k = "cmt" /\ Step("dup-comment", Dup(post, p))
+DropLineComment == \E p \in DOMAIN post : FarStmt(post[p]) /\ post[p].tr # 0
+                                           /\ Step("drop-line-comment", Put(post, p, StmtLine(post[p].id, 0, 0)))
+ReindentFarLine == \E p \in DOMAIN post : FarStmt(post[p])
+                                           /\ Step("reindent-far-line", Put(post, p, StmtLine(post[p].id, post[p].tr, 1)))
+SwapFarStatements == \E p \in DOMAIN post : FarStmt(post[p]) /\ p < Len(post) /\ FarStmt(post[p + 1])
+                                           /\ Step("swap-far-statements", Put(Put(post, p, post[p + 1]), p + 1, post[p]))
+DropFarBlank    == \E p \in DOMAIN post : /\ post[p].k = "blank" /\ p > 1 /\ FarCmt(post[p - 1])
+                                           /\ p < Len(post) /\ FarCmt(post[p + 1])
+                                           /\ Step("drop-far-blank", Drop(post, p))
+DropNearBlank   == \E p \in DOMAIN post : /\ post[p].k = "blank" /\ p > 1 /\ p < Len(post) /\ req.op # "insert"
+                                           /\ NearCmt(post[p - 1]) /\ NearCmt(post[p + 1])
+                                           /\ post[p - 1].id < 100 /\ post[p + 1].id < 100
+                                           /\ post[p - 1].id \div 10 = post[p + 1].id \div 10
+                                           /\ Step("drop-near-blank", Drop(post, p))
+GlueComment     == \E p \in DOMAIN post : /\ post[p].k = "cmt" /\ p > 1 /\ FarStmt(post[p - 1]) /\ post[p - 1].tr = 0
+                                           /\ Step("glue-comment", Drop(Put(post, p - 1, StmtLine(post[p - 1].id, post[p].id, 0)), p))
 
 Damage == \/ DropFarComment \/ DropNearComment \/ DupComment \/ DropLineComment \/ ReindentFarLine
           \/ SwapFarStatements \/ DropFarBlank \/ DropNearBlank \/ GlueComment
 
-Next == DoDelete \/ DoReplace \/ DoInsert \/ Damage
+Next == \/ DoDelete \/ DoReplace \/ DoInsert
+        \/ DropFarComment \/ DropNearComment \/ DupComment \/ DropLineComment \/ ReindentFarLine
+        \/ SwapFarStatements \/ DropFarBlank \/ DropNearBlank \/ GlueComment
 Spec == Init /\ [][Next]_vars
 
 (* ---- properties --------------------------------------------------------------- *)
